@@ -1,3 +1,4 @@
 pub mod c15;
 pub mod c07;
 pub mod c16;
+pub mod c12;
